@@ -822,6 +822,13 @@ unsafe fn do_close(c: &mut SimCtx, fd: c_int) -> c_int {
         Some(i) if i.write => {
             let (m, r, fault) = c.fault_for(Op::Close, &i.path);
             let frozen = c.frozen;
+            if !frozen && !i.null {
+                // file times follow the simulated clock (read without advancing it)
+                let ns = c.real_ns.max(0);
+                let t = libc::timespec { tv_sec: (ns / 1_000_000_000) as libc::time_t, tv_nsec: (ns % 1_000_000_000) as c_long };
+                let ts = [t, t];
+                libc::syscall(libc::SYS_utimensat, fd as c_long, std::ptr::null::<c_char>(), ts.as_ptr(), 0 as c_long);
+            }
             match fault {
                 Some(FaultKind::CrashBefore) | Some(FaultKind::CrashAfter) if !frozen => {
                     let ret = real_close(fd);
